@@ -563,6 +563,13 @@ def s11(ctx, rid):
         raise core.AnchorLost('callers of should_try_fsync: %d' % n)
 
 
+def s12(ctx, rid):
+    """"whenever the un-synced bytes exceed the configured limit" - for every value of the limit: the builder forwards the limit
+    to the configuration on every path and nothing resets it (C05.option_reaches_config instances)"""
+    import props.c05 as c05
+    c05.option_reaches_config(ctx, rid, 'max_dirty_bytes_before_sync', 'set_max_dirty_bytes_before_sync')
+
+
 RULES = [
     Rule('C12.S1', 'every ok-return of the blob constructor is preceded by the header append and then a completed ok file sync', s1, 2),
     Rule('C12.S2', 'every index dump / index-file construction call is dominated by an ok sync of the blob file (in the function or in every caller)', s2, 3),
@@ -575,5 +582,6 @@ RULES = [
     Rule('C12.S9', 'sync requests to the worker are sent with the waiting send, never dropped when the queue is full (C13.L9 instances)', s9, 1),
     Rule('C12.S10', 'the worker skips starting the sync task only while a sync task is really running (decided by JoinHandle::is_finished)', s10, 1),
     Rule('C12.S11', 'the sync trigger is a function of the current dirty-byte level, the limit and the in-progress flag only (level-triggered)', s11, 3),
+    Rule('C12.S12', 'the configured dirty-byte limit reaches the configuration unchanged for every value', s12, 3),
     Rule('C12.S8', 'every boolean in-progress / request-pending flag that was set is released on every exit (drop guard or explicit clear on all paths): the sync it guards is never suppressed for ever', s8, 1),
 ]
